@@ -42,3 +42,10 @@ META["C06"] = {
     "note": "Parsing/formatting of symbolic strings and numbers is not encoded (paths ending there are counted as unsupported, never as passed).",
     "technique": "symbolic execution of go/ssa + SMT (z3), algebraic-law harness, native replay",
 }
+
+META["C19"] = {
+    "text": "The real closures bound by core.Import/ImportToX are executed symbolically: range against an element-side characterisation of the progression (all int64 triples for 0..3 elements, pooled steps up to 8; running past the end is a violation via an unwinding bound), keys/len/typeOf/kindOf and the toX family against Go's own conversions on symbolic numbers and concrete string pools; the package tables produced by the real init functions are checked entry by entry (each function is the Go function of that name).",
+    "design_ref": "DESIGN.md §5 C19",
+    "note": "Table obligations are closed (no free variable): enumeration, not a solver result. Trusted: go/ssa, symgo semantics and reflect model, z3 + cvc5 (bv-as-int) portfolio.",
+    "technique": "symbolic execution of go/ssa + SMT (z3, cvc5), differential against Go conversions, unwinding assertions, native replay",
+}
